@@ -32,7 +32,15 @@ def designs_out(lst):
 
 
 def do_call(mmo, name):
-  """Performs one public call; the answer is a JSON-able projection, exceptions are answers."""
+  """Performs one public call (under a watchdog); the answer is a JSON-able projection, exceptions are answers."""
+  from harness import core
+  try:
+    return core.with_timeout(lambda: _do_call(mmo, name), 150)
+  except core.CallTimeout:
+    return ('error', 'DidNotReturnWithin150s')
+
+
+def _do_call(mmo, name):
   try:
     if name in SETQ:
       return ('ok', sorted(map(str, getattr(mmo, name))))
